@@ -28,7 +28,9 @@ RULE = ("values of all eight record kinds built from real types (chunks with 0/1
         "of 0-5 quotes with msgpack-boundary metrics); malformed stream derived from the real encodings: truncation at "
         "every offset (small records) or 40 offsets, single-bit flips, kind byte 8..255 and non-canonical integer forms of "
         "the tag (cc/cd/ce/cf/d0..d3), bin8 / map forms of the header, trailing garbage, empty/1/2-byte values, str and "
-        "array-of-int encodings of a chunk; an adversarial structured stream for the chunk decoders (maps / 2-arrays / nested / "
+        "array-of-int encodings of a chunk; every other spelling of a header (wide tags cc/cd/ce/cf/d0/d1, bin, index- and "
+        "name-keyed maps, array16/32, map16, arity 2, missing / doubled) in front of a valid body of every kind and bodies "
+        "shifted by one byte (oracle: the typed result equals T's own decoding of value[2..]); an adversarial structured stream for the chunk decoders (maps / 2-arrays / nested / "
         "variant-wrapped bodies carrying an `address` next to the `value`, address as hex str / bin / int array / ..., set to the "
         "true hash, another content's hash or garbage; value as bin / str / int array; extra, missing, duplicated fields), behind "
         "Chunk and ChunkWithPayment headers; plus the exhaustive sweep of all 2^24 three-byte headers through "
@@ -540,6 +542,28 @@ def gen_malformed(ctx):
             add("trailing", kind, b + bytes(rng.randrange(256) for _ in range(rng.choice([1, 7]))))
             add("noncanonical-tag", kind, b"\x91\xcc" + b[1:])
             add("noncanonical-tag", kind, b"\x91\xcd\x00" + b[1:])
+    # the tag occupies a FIXED-SIZE prefix: every other spelling of a header (accepted by from_record or
+    # merely valid msgpack for a RecordHeader) in front of a valid body, and valid header + shifted body;
+    # whatever try_deserialize_record::<T> makes of it must be what T's decoder makes of value[2..]
+    for kind in KINDS:
+        k = PINNED[kind]
+        for c, o in sorted(per_kind.get(kind, []), key=lambda co: co[1]["len"])[:2 if quick else 6]:
+            b = bytes.fromhex(o["bytes"])
+            if len(b) > 6000:
+                continue
+            body = b[2:]
+            heads = [bytes([0x91, 0xcc, k]), bytes([0x91, 0xd0, k]), bytes([0xc4, 0x01, k]), bytes([0x81, 0x00, k]),
+                     b"\x81\xa4kind" + bytes([k]), b"\x81\xa4kind\xcc" + bytes([k]), bytes([0x91, 0xcd, 0x00, k]),
+                     bytes([0x91, 0xce, 0, 0, 0, k]), bytes([0x91, 0xcf, 0, 0, 0, 0, 0, 0, 0, k]), bytes([0x91, 0xd1, 0x00, k]),
+                     bytes([0xdc, 0x00, 0x01, k]), bytes([0xdd, 0, 0, 0, 1, k]), bytes([0xde, 0x00, 0x01, 0x00, k]),
+                     bytes([0x81, 0xc4, 0x04]) + b"kind" + bytes([k]), bytes([0x91]), bytes([k]), b"",
+                     bytes([0x91, k, 0xc0]), bytes([0x91, k, k]), bytes([0x91, k, 0x91, k]), bytes([0x92, k, 0xc0])]
+            for h in heads:
+                add("prefix-size", kind, h + body)
+            # a body that starts one byte late / early behind the canonical header
+            add("prefix-size", kind, b[:2] + b"\xc0" + body)
+            add("prefix-size", kind, b[:2] + body[1:])
+            add("prefix-size", kind, b[:2] + body[:1] + body)
     # random windows for the header layer
     for _ in range(200 if quick else 5000):
         w = bytes([rng.choice([0x91, 0x91, 0x81, 0xc4, 0x92, 0x90, rng.randrange(256)]),
@@ -651,6 +675,12 @@ def oracle(c, o):
                 v.append(("chunk-address", "decoded chunk carries address %s which is not the content hash of its %d bytes "
                           "(the address was taken from the wire, not recomputed) [%s]"
                           % (val["addr"], len(val["value"]) // 2, c.get("family"))))
+        if val and val.get("direct_same") is False:
+            v.append(("prefix-size", "try_deserialize_record::<%s> %s a %d-byte value whose bytes after the 2-byte prefix %s "
+                      "[%s, value starts %s]: the result does not depend on value[2..] alone, so the tag does not occupy a "
+                      "fixed-size prefix" % (c["as"], "accepts" if val.get("ok") else "rejects", len(b),
+                                             "decode on their own" if val.get("direct_ok") else "do not decode as that type",
+                                             c.get("family"), b[:6].hex())))
         if c.get("family") == "truncate" and val and val.get("ok"):
             # a strict prefix of a valid encoding must not decode (only full values do)
             v.append(("truncated-accepted", "a %d-byte strict prefix of a valid %s record decoded successfully" % (len(b), c["as"])))
